@@ -121,6 +121,14 @@ def judge(case, impl_res, ans):
             return ('SPEC: channel positions of the merged source / of the export are not the probes\' positions translated '
                     'along x (depths are read from them): %s vs %s' % ((lc or {}).get('vals'), exp_pos))
         return None
+    # 2a. the source arrays are the stored ones (templates, amplitudes, assignments as written to disk)
+    spec_ = case.get('spec')
+    if spec_ is not None:
+        if sm['templates'] != np.asarray(spec_['templates'], dtype=np.float32).astype(np.float64).tolist():
+            return 'SPEC: the template waveforms of the source model differ from the stored templates.npy'
+        if sm['amplitudes'] != [float(x) for x in spec_['amplitudes']] or sm['spike_templates'] != list(spec_['spike_templates']) or \
+                sm['spike_clusters'] != list(spec_.get('spike_clusters') or spec_['spike_templates']):
+            return 'SPEC: amplitudes / assignments of the source model differ from the stored arrays'
     # 2b. the cluster waveforms everything below is derived from (C08): count-weighted means of the
     # templates on the dominant template's channels when the dataset is curated
     if len(res) > 7 and 'data' in res[7] and sm['spike_clusters'] != sm['spike_templates']:
